@@ -283,7 +283,7 @@ Weights ==
     [] Profile = "refs" -> <<"pushblob", "pushblob", "manput", "manput", "manput", "manput", "mandel", "mandel", "restart">>
     [] Profile = "gc" -> <<"pushblob", "pushblob", "repushblob", "manput", "manput", "manput", "manput", "manput", "mandel", "mandel",
                            "blobdel", "gc", "gc", "gcsubj", "gcsubj", "gcsubj", "age", "age", "restart", "restart", "pushmanblob",
-                           "blobdelman", "blobdelman", "manputdig", "manputdig", "manrepush", "manrepush">>
+                           "blobdelman", "blobdelman", "manputdig", "manputdig", "manrepush", "manrepush", "mandelmiss">>
     \* tags moved and deleted over two manifests, then collections: the order of the entries of one digest in the index
     \* (tagged, untagged left-over of a deleted tag) must not matter to what a collection keeps
     [] Profile = "gctags" -> <<"pushblob", "manput", "manput", "manput", "manput", "mandel", "mandel", "mandel", "age", "gc", "gc", "restart">>
